@@ -461,8 +461,15 @@ func (e *kvElection) attemptPriorityTakeover(payloadBytes []byte) error {
 	}
 
 	if e.cfg.Priority <= currentPayload.Priority {
-		e.leaderID.Store(currentPayload.ID)
-		e.revision.Store(entry.Revision())
+		// Only a follower records what it observed. A late acquisition round of an instance that
+		// already leads must not replace the leader's own revision with somebody else's: the next
+		// heartbeat would then overwrite that record (becomeLeader sets these under the same mutex)
+		e.mu.Lock()
+		if !e.isLeader.Load() {
+			e.leaderID.Store(currentPayload.ID)
+			e.revision.Store(entry.Revision())
+		}
+		e.mu.Unlock()
 		return fmt.Errorf("current leader has equal or higher priority: %d >= %d", currentPayload.Priority, e.cfg.Priority)
 	}
 
